@@ -89,7 +89,10 @@ def handleLoad (inp : Bytes) (obs : List String) : String :=
         (match prest with
          | "ok" :: ps =>
            match pPieces ps with
-           | some (ps, []) => if checkLayout t.info.pieceLength (fileLens t) t.info.pieces ps then [] else ["c06-layout"]
+           | some (ps, []) =>
+             (if checkLayout t.info.pieceLength (fileLens t) t.info.pieces ps then [] else ["c06-layout"]) ++
+             -- every byte of every file belongs to some piece: the piece lengths add up to the total length
+             (if (ps.map (·.len)).sum == (fileLens t).sum then [] else ["c06-coverage"])
            | _ => ["c06-unparsable-observation"]
          | _ => ["c06-panic"])
       | _ => ["c10-unparsable-observation"]
